@@ -21,10 +21,30 @@ func VerifC10Cancel() {
 	conn.maxIdle = 1
 	conn.gates = s.gates
 	// the server keeps silent after its first packet: the query can only end by cancellation
-	silent := verifChoice("server", 2) == 1
-	if silent {
+	server := verifChoice("server", 3)
+	if server == 1 {
 		conn.gateFrom, conn.gateAfter = 0, 1<<30
 		conn.maxIdle = 1 << 20 // never hangs up: only cancellation can end the query
+	}
+	if server == 2 {
+		// the server streams: a progress packet every 100 ms for 6 s (never a gap as long as the
+		// read timeout), then the regular answer - cancellation must not wait for the stream to end
+		var stream rb
+		stream.srvProgress(proto.Progress{Rows: 1}, v)
+		one := len(stream.b)
+		for i := 1; i < 60; i++ {
+			stream.srvProgress(proto.Progress{Rows: 1}, v)
+		}
+		gates := [][2]int{{s.gates[0][0], 0}}
+		for _, g := range s.gates {
+			gates = append(gates, [2]int{g[0], g[1] + len(stream.b)})
+		}
+		conn.script = append(append([]byte{}, stream.b...), s.script...)
+		conn.gates = gates
+		conn.pace, conn.paceEvery, conn.paceFrom, conn.paceStart = 100*time.Millisecond, one, 0, time.Now()
+		if s.q.OnProgress == nil {
+			s.q.OnProgress = func(ctx context.Context, p proto.Progress) error { return nil }
+		}
 	}
 	c := vNewClient(conn, v, proto.CompressionDisabled, compress.None, nil)
 	ctx := vNewCtx(verifIntRange("cancelgate", 0, verifParam("maxgate", 10)))
